@@ -407,6 +407,63 @@ theorem bowring_exact_on_surface (el : Ellipsoid ℝ) (ha : 0 < el.a) (hf0 : 0 <
     linear_combination (-el.a) * hW2'
   rw [hh]
 
+/-- **at the poles** the closed form answers the pole itself, height zero for a point of height zero; the longitude,
+which a pole does not have, comes back as zero -/
+theorem bowring_at_the_poles (el : Ellipsoid ℝ) (ha : 0 < el.a) (hf0 : 0 < el.f) (hf1 : el.f < 1) (lam t : ℝ) (north : Bool) :
+    let phi : ℝ := if north then Real.pi / 2 else -(Real.pi / 2)
+    el.geographic (el.cartesian ⟨lam, phi, 0, t⟩) = ⟨0, phi, 0, t⟩ := by
+  intro phi
+  set q := 1 - el.f with hq
+  have hq0 : 0 < q := by simp only [hq]; linarith
+  have hes : el.eccentricitySquared = 1 - q ^ 2 := by simp [Ellipsoid.eccentricitySquared, two, hq]; ring
+  have hb : el.semiminorAxis = el.a * q := by simp [Ellipsoid.semiminorAxis, one, hq]
+  have hcos : Real.cos phi = 0 := by
+    simp only [phi]; cases north <;> simp [Real.cos_neg]
+  have hsin2 : Real.sin phi ^ 2 = 1 := by
+    simp only [phi]; cases north <;> simp [Real.sin_neg]
+  have hfne : el.f ≠ 0 := ne_of_gt hf0
+  have hN : el.primeVerticalRadiusOfCurvature phi = el.a / q := by
+    simp only [Ellipsoid.primeVerticalRadiusOfCurvature, scalar_beq, Scalar.sq, one, scalar_sin, scalar_sqrt]
+    have z : (@OfNat.ofNat ℝ 0 Scalar.instOfNat) = 0 := by
+      show (Scalar.ofNatLit 0 : ℝ) = 0
+      simp
+    rw [z]
+    have : 1 - Real.sin phi * Real.sin phi * el.eccentricitySquared = q ^ 2 := by
+      rw [← sq, hsin2, hes]; ring
+    simp [hfne, this, Real.sqrt_sq hq0.le]
+  have hcart : el.cartesian ⟨lam, phi, 0, t⟩ = ⟨0, 0, el.a * q * Real.sin phi, t⟩ := by
+    simp only [Ellipsoid.cartesian, hN, one, scalar_sin, scalar_cos, add_zero, hes, hcos]
+    congr 1
+    · ring
+    · ring
+    · field_simp; ring
+  rw [hcart]
+  have hp : Scalar.lt (Scalar.hypot (0 : ℝ) 0) (@OfScientific.ofScientific ℝ Scalar.instOfScientific 10 true 13) = true := by
+    rw [scalar_lt, scalar_hypot]
+    have : (0 : ℝ) < tinyLit := by rw [tinyLit_eq]; positivity
+    simpa [tinyLit] using this
+  simp only [Ellipsoid.geographic, hp, if_true, scalar_atan2, scalar_abs, hb]
+  have harg : Complex.arg (⟨0, 0⟩ : ℂ) = 0 := by
+    have : (⟨0, 0⟩ : ℂ) = 0 := rfl
+    rw [this, Complex.arg_zero]
+  rw [harg]
+  have hpi : (Ellipsoid.fracPi2 : ℝ) = Real.pi / 2 := by simp [Ellipsoid.fracPi2, two]
+  cases north
+  · have hs : Real.sin phi = -1 := by simp [phi, Real.sin_neg]
+    have hneg : ¬ (0 : ℝ) ≤ el.a * q * -1 := by nlinarith [mul_pos ha hq0]
+    simp only [hs, Scalar.copysign, hpi]
+    show (⟨0, (if 0 ≤ el.a * q * -1 then |Real.pi / 2| else -|Real.pi / 2|), |el.a * q * -1| - el.a * q, t⟩ : Coor ℝ) = _
+    rw [if_neg hneg, abs_of_pos (by positivity : (0 : ℝ) < Real.pi / 2)]
+    have : |el.a * q * -1| = el.a * q := by rw [mul_neg_one, abs_neg, abs_of_pos (mul_pos ha hq0)]
+    rw [this]; simp [phi]
+  · have hs : Real.sin phi = 1 := by simp [phi]
+    have hpos : (0 : ℝ) ≤ el.a * q * 1 := by nlinarith [mul_pos ha hq0]
+    simp only [hs, Scalar.copysign, hpi]
+    show (⟨0, (if 0 ≤ el.a * q * 1 then |Real.pi / 2| else -|Real.pi / 2|), |el.a * q * 1| - el.a * q, t⟩ : Coor ℝ) = _
+    rw [if_pos hpos, abs_of_pos (by positivity : (0 : ℝ) < Real.pi / 2)]
+    have : |el.a * q * 1| = el.a * q := by rw [mul_one, abs_of_pos (mul_pos ha hq0)]
+    rw [this]; simp [phi]
+
 /-! ### the `cart` operator (Fukushima's one-step inverse) is exact on the surface too -/
 
 /-- the algebra of Fukushima's / Claessens' one-step inverse on the surface: with `q = 1 - f`,
